@@ -640,6 +640,42 @@ pub fn run_c09(cfg: &Config) -> i32 {
 		});
 		total.merge(rep);
 	}
+	// arrays whose neighbouring objects have the same key set in different orders (one of them already
+	// canonical): whatever one object's canonicalization leaves behind must not reach its sibling
+	{
+		let rep = parallel(cfg.threads, 8, |i| {
+			let mut rep = Report::new();
+			let mut rng = Rng::new(seed).fork(0xc09a + i as u64);
+			let mut cnt = 0u64;
+			for n in (2..=(if cfg.san || cfg!(miri) { 12usize } else { 40 })).filter(|n| n % 8 == i) {
+				let sorted: Vec<(String, RVal)> = (0..n).map(|j| (format!("k{:02}", j), RVal::Num(j.to_string()))).collect();
+				let mut reversed = sorted.clone();
+				reversed.reverse();
+				let mut rotated = sorted.clone();
+				rotated.rotate_left(1);
+				let mut shuffled = sorted.clone();
+				rng.shuffle(&mut shuffled);
+				let mut shuffled2 = sorted.clone();
+				rng.shuffle(&mut shuffled2);
+				let o = |e: &Vec<(String, RVal)>| RVal::Obj(e.clone());
+				for doc in [
+					RVal::Arr(vec![o(&reversed), o(&sorted)]),
+					RVal::Arr(vec![o(&sorted), o(&reversed)]),
+					RVal::Arr(vec![o(&rotated), o(&sorted), o(&rotated), o(&sorted)]),
+					RVal::Arr(vec![o(&shuffled), o(&sorted), o(&shuffled2), o(&shuffled)]),
+					RVal::Arr(vec![o(&shuffled), o(&shuffled2), o(&sorted), o(&reversed)]),
+					RVal::Obj(vec![("b".into(), o(&shuffled)), ("a".into(), o(&sorted)), ("c".into(), RVal::Arr(vec![o(&rotated), o(&sorted)]))]),
+				] {
+					cnt += 1;
+					c09_one(&mut rep, "sibling-objects-with-one-key-set", &doc, cnt);
+				}
+			}
+			rep.distinct_by_construction(cnt);
+			rep.count("family:sibling-objects-with-one-key-set", cnt);
+			rep
+		});
+		total.merge(rep);
+	}
 	// arrays of records (shared key sequence, optional trailing members, empty records)
 	let n = cfg.budget(4_000, 200_000);
 	let rep = parallel(cfg.threads, 16, |i| {
@@ -1197,6 +1233,70 @@ pub fn run_c10(cfg: &Config) -> i32 {
 			rep.count("family:equal-valued-members-over-key-pools", cnt);
 			rep
 		});
+		total.merge(rep);
+	}
+
+	// arrays (and objects) whose neighbouring members are number literals that resemble each other: a
+	// literal next to the same text with one more zero at the end of its exponent, of its fraction or of
+	// its integer part, with the other exponent marker, and next to its prefixes that are numbers. After
+	// canonicalization every member must still denote its own double, twice gives the same.
+	if !cfg!(miri) {
+		let mut rep = Report::new();
+		let mut rd = Reader::new();
+		let bases = ["1.5e1", "1.5e+21", "2.50e-3", "10.0e10", "9.1E0", "1.25e100", "-4.5e2", "0.5e-10", "123.456e7", "1.0e0"];
+		for base in bases {
+			let (mant, exp) = base.split_at(base.find(|c| c == 'e' || c == 'E').unwrap());
+			let mut rel: Vec<String> = vec![
+				base.to_string(),
+				format!("{}0", base),
+				format!("{}00", base),
+				format!("{}0{}", mant, exp),
+				format!("{}00{}", mant, exp),
+				format!("{}{}", mant, exp.replace('e', "E").replace("E+", "e+")),
+				mant.to_string(),
+				format!("{}0", mant),
+				format!("{}{}", mant.replace('.', "0."), exp),
+			];
+			for l in 1..base.len() {
+				if matches!(rd.read(base[..l].as_bytes(), true).root, Some(RVal::Num(_))) {
+					rel.push(base[..l].to_string());
+				}
+			}
+			rel.retain(|x| matches!(rd.read(x.as_bytes(), true).root, Some(RVal::Num(_))) && x.parse::<f64>().map(|f| f.is_finite()).unwrap_or(false));
+			let mut docs: Vec<String> = Vec::new();
+			for a in &rel {
+				for b in &rel {
+					docs.push(format!("[{},{}]", a, b));
+					docs.push(format!("[{},null,{},\"s\",{}]", a, b, a));
+				}
+				docs.push(format!("{{\"a\":{},\"b\":{}}}", a, rel[0]));
+			}
+			docs.push(format!("[{}]", rel.join(",")));
+			for doc in docs {
+				rep.evaluations += 1;
+				rep.distinct_by_construction(1);
+				rep.count("family:neighbouring-number-literals-that-resemble-each-other", 1);
+				let case = json!({"sub": "canon-invariance", "value_compact": doc});
+				let Ok(Ok((v, _))) = guard(|| Value::parse_str(&doc)) else {
+					rep.inconclusive.push(format!("resembling-numbers family: `{}` does not parse", doc));
+					continue;
+				};
+				let before = to_rval(&v);
+				match canon_real(&v, rep.evaluations as usize % 3) {
+					Ok((c1, s1)) => {
+						if let Err(m) = same_shape_and_doubles(&before, &to_rval(&c1), &mut String::from("$")) {
+							rep.violation("C10:not-preserved", format!("canonicalizing {}: {}", doc, m), case.clone());
+						}
+						match canon_real(&c1, 0) {
+							Ok((_, s2)) if s2 == s1 => (),
+							Ok((_, s2)) => rep.violation("C10:not-idempotent", format!("canonicalizing {} twice changes `{}` into `{}`", doc, s1, s2), case.clone()),
+							Err(p) => rep.violation("C10:panic", format!("second canonicalize panicked on {}: {}", doc, p), case.clone()),
+						}
+					}
+					Err(p) => rep.violation("C10:panic", format!("canonicalize panicked on {}: {}", doc, p), case),
+				}
+			}
+		}
 		total.merge(rep);
 	}
 	if cfg!(miri) {
